@@ -14,8 +14,8 @@ COMMON_ASSUME = [
 STANDARD = {
     "C02": {
         "variants": ["rel"],
-        "quick": 1600,
-        "thorough": 40000,
+        "quick": 40000,
+        "thorough": 1000000,
         "rule": "case = (generated/mutated/real map text, reachable mode, Difficulty without passed_objects); gradual sequence vs "
                 "one-shot passed_objects(i) for every prefix (sampled above 150), final vs full, len vs count, passed(n+1) vs full. "
                 "non-trivial = sequence has >= 2 values; distinct = distinct (map text, settings, mode) digests",
@@ -24,8 +24,8 @@ STANDARD = {
     },
     "C03": {
         "variants": ["rel"],
-        "quick": 12000,
-        "thorough": 300000,
+        "quick": 200000,
+        "thorough": 3000000,
         "rule": "case = (map text, reachable mode, Difficulty without passed_objects, random schedule of next/nth(k)/last with random "
                 "consistent/inconsistent score states); after every call the result is compared with the one-shot mode-specific "
                 "Performance on the same map with passed_objects(cursor) and that state, None iff nothing remained, len() == remaining. "
@@ -34,8 +34,8 @@ STANDARD = {
     },
     "C04": {
         "variants": ["rel"],
-        "quick": 6000,
-        "thorough": 150000,
+        "quick": 60000,
+        "thorough": 1500000,
         "rule": "case = (map text, reachable mode, Difficulty incl. passed_objects, score specification); 21 entry points "
                 "(Performance::new(map|&map|attrs|perf_attrs), attrs.performance(), mode-specific new/try_new/from, try_mode, "
                 "mode_or_ignore) each followed by .difficulty(D)+score must equal Performance::new(&converted); embedded "
@@ -44,8 +44,8 @@ STANDARD = {
     },
     "C07": {
         "variants": ["rel"],
-        "quick": 4000,
-        "thorough": 100000,
+        "quick": 40000,
+        "thorough": 1000000,
         "rule": "case = map of any native mode (15% already converted) x all 4 target modes x random settings; convert/convert_ref/"
                 "convert_mut equal or same error, identity borrowed, convertibility predicate, convert flags, re-conversion rejected, "
                 "calculate_for_mode/strains_for_mode/gradual difficulty/gradual performance/Performance::try_mode/mode_or_ignore/"
@@ -55,8 +55,8 @@ STANDARD = {
     },
     "C08": {
         "variants": ["rel"],
-        "quick": 4000,
-        "thorough": 100000,
+        "quick": 40000,
+        "thorough": 1000000,
         "rule": "case = (map, reachable mode, base settings, score spec); (1) the same game-allowed legacy combination as u32/"
                 "GameModsLegacy/GameModsIntermode/&GameModsIntermode/lazer GameMods must give equal difficulty, strains, performance "
                 "(via Difficulty::mods and via Performance::mods) and attribute-builder output; (2) lazer DT/NC/HT/DC with speed_change r "
@@ -68,8 +68,8 @@ STANDARD = {
     },
     "C15": {
         "variants": ["rel", "dbg"],
-        "quick": 6000,
-        "thorough": 150000,
+        "quick": 40000,
+        "thorough": 800000,
         "rule": "case = (map, reachable mode, settings); S = plain next() sequence; 4 random programs over {next, nth(k), len/size_hint, "
                 "by_ref().step_by, skip, take, count, last, pokes after exhaustion} with k in {0,1,2,small,rem-1,rem,rem+1,usize::MAX} "
                 "against the positional model, zip of two fresh instances, and a gradual-performance schedule vs the next-only run; "
@@ -78,8 +78,8 @@ STANDARD = {
     },
     "C09": {
         "variants": ["rel"],
-        "quick": 6000,
-        "thorough": 150000,
+        "quick": 80000,
+        "thorough": 2000000,
         "rule": "case = (realistic map incl. empty/single-object/all-spinner/stacked/dense/sparse profiles, reachable mode, game-reachable "
                 "settings: clock in [0.5,2], overrides in [0,11]) x 8 passed_objects prefixes x 3 score states consistent with the counts; "
                 "visitor over every f64 of difficulty attributes, strains and performance attributes: finite; ratings/pp/components >= 0; "
@@ -88,8 +88,8 @@ STANDARD = {
     },
     "C12": {
         "variants": ["rel"],
-        "quick": 8000,
-        "thorough": 200000,
+        "quick": 40000,
+        "thorough": 1000000,
         "rule": "case = attribute shape from public struct literals (60% small: <= 6 per count, else up to thousands; mania <= 120) x 200 "
                 "(400 thorough) random inputs: subsets of accuracy/combo/misses/hit results with values 0..N+2, both priorities, "
                 "stable/lazer/CL, passed_objects; clauses S1 no panic, S2 misses, S3 sum and kept results when the provided ones fit, "
@@ -110,8 +110,8 @@ STANDARD = {
     },
     "C14": {
         "variants": ["rel"],
-        "quick": 6000,
-        "thorough": 150000,
+        "quick": 80000,
+        "thorough": 2000000,
         "rule": "case = (map, reachable mode, mods incl. mirror/HR reflections, key mods, HO/IN/RD) with n over 0..total+2 (sampled above 40); "
                 "independent reference counts from public fields of the converted map; counted(n) == min(n,total); counts and max_combo "
                 "non-decreasing; n >= total == unlimited; is_convert flag. non-trivial = total units >= 2",
@@ -119,8 +119,8 @@ STANDARD = {
     },
     "C16": {
         "variants": ["rel"],
-        "quick": 6000,
-        "thorough": 150000,
+        "quick": 80000,
+        "thorough": 2000000,
         "rule": "case = (non-suspicious map incl. hour-long gaps and objects before t=0, reachable mode, settings incl. passed_objects and "
                 "HO/IN/RD); peaks finite and >= 0, equal section counts across skills, re-aggregation (drop zeros, sort desc, sum peak*w^i) "
                 "reproduces catch stars (0.94, sqrt*4.59), mania stars (0.9, *0.018), osu flashlight (plain sum, sqrt*0.0675, TD/RX/AP) "
@@ -129,8 +129,8 @@ STANDARD = {
     },
     "C17": {
         "variants": ["rel"],
-        "quick": 1500,
-        "thorough": 30000,
+        "quick": 15000,
+        "thorough": 400000,
         "rule": "case = builder configuration (mode, is_convert, NM/HR/EZ/DT/HT combos or lazer DA/rate mods, clock none or 40 log-spaced in "
                 "[0.01,100]); A1 build().hit_windows == hit_windows() for AR and OD over [-20,20] step 0.25 x both flags; A2 with_mods=true "
                 "round trip on [0,10]; A3 windows non-increasing over the grid; A4 window(r)*r == window(1) (not mania great window); "
@@ -140,8 +140,8 @@ STANDARD = {
     },
     "C18": {
         "variants": ["rel"],
-        "quick": 6000,
-        "thorough": 150000,
+        "quick": 80000,
+        "thorough": 2000000,
         "rule": "case = (map, mode, random setter program of 1-8 setters with in/out-of-range/infinite values, score spec); B1 Performance "
                 "setters (enum, owned, mode-specific builder, from attributes) == difficulty(Difficulty setters); permutation/last-wins; "
                 "B2 inspect round trip; B3 clamps observed through inspect and through results; B4 documented no-op setters per mode. "
@@ -150,8 +150,8 @@ STANDARD = {
     },
     "C19": {
         "variants": ["rel"],
-        "quick": 6000,
-        "thorough": 120000,
+        "quick": 120000,
+        "thorough": 3000000,
         "rule": "case = non-suspicious osu!standard map (all profiles, versions <8 and >=8) converted to taiko, catch, mania without key mod "
                 "and with 3 (thorough: all 10) key mods in legacy/intermode/lazer form; objects sorted, durations finite >= 0, control "
                 "points strictly increasing (when the source's are), taiko one sound per object, mania key count and raw column "
@@ -160,8 +160,8 @@ STANDARD = {
     },
     "C05": {
         "variants": ["rel", "dbg"],
-        "quick": 6000,
-        "thorough": 150000,
+        "quick": 8000,
+        "thorough": 200000,
         "budget": 30,
         "mem": 4,
         "timeout": 3000,
@@ -181,8 +181,8 @@ STANDARD = {
     },
     "C06": {
         "variants": ["rel"],
-        "quick": 40000,
-        "thorough": 1500000,
+        "quick": 400000,
+        "thorough": 10000000,
         "rule": "case = byte string: random noise, UTF-16 LE/BE with/without BOM, invalid UTF-8, CR/NUL mixes, 100 kB lines, byte flips; "
                 "grammar profiles limits/ties/slider-zoo with numbers at and beyond every parser limit and NaN/inf/-0 tokens; mutated "
                 "fixtures (shuffled/duplicated/truncated/corrupted lines, moved section headers); timing-point torture (0/-0/duplicate "
@@ -278,7 +278,7 @@ def c01(prop, tier, seed):
     t0 = time.time()
     agg = D.Agg()
     binp = D.build("rel")
-    total = 600 if tier == "quick" else 12000
+    total = 1500 if tier == "quick" else 30000
     nproc = 3 if tier == "quick" else 6
     chunk = max(1, (total + 31) // 32)
     flavours = [({}, {}), ({"junk_mb": 64}, {}), ({}, {"RPV_PADDING": "x" * 3000}), ({"junk_mb": 7}, {"RPV_PADDING": "y" * 17}),
@@ -506,9 +506,15 @@ def miri_classify(stderr_text):
         kind = "aliasing"
     else:
         kind = "ub"
-    fr = re.search(r"\d+: (rosu_pp::[^\n]*?)\n\s+at /repo/(src/[^:\n]+)", stderr_text)
-    frame = fr.group(1).strip() if fr else "unknown"
-    frame = re.sub(r"::\{closure[^}]*\}", "", frame)
+    frame = "unknown"
+    bt = stderr_text.split("stack backtrace:", 1)
+    for line in (bt[1] if len(bt) > 1 else stderr_text).splitlines():
+        mm = re.match(r"\s*\d+: (.*)", line)
+        if mm and "rosu_pp::" in mm.group(1):
+            tok = re.search(r"rosu_pp::[A-Za-z0-9_:]+", mm.group(1))
+            if tok:
+                frame = tok.group(0).rstrip(":")
+                break
     return (kind, aliasing, frame, msg[:400])
 
 
